@@ -4,6 +4,9 @@ import (
 	"fmt"
 	"strings"
 
+	"verif/ast"
+	"verif/gen"
+
 	"github.com/paulsonkoly/calc/memory"
 	"github.com/paulsonkoly/calc/types/value"
 
@@ -490,15 +493,48 @@ func c18History(ctx *core.Ctx, idx int, tight bool) core.Result {
 	return res
 }
 
+// c18Lang: language-level reach of the same property: name-pressure programs
+// (every variable kind at once, zipped loops over existing and new variables)
+// and wide-frame / deep-recursion programs against the reference semantics
+// under plain, tight and pregrown allocation.
+func c18Lang(ctx *core.Ctx, idx int) core.Result {
+	r := core.CaseRng(ctx.Seed, "C18/lang", idx)
+	var stmts []ast.Node
+	kind := "scope"
+	if idx%3 == 2 {
+		kind = "wide-deep"
+		defs, call, _ := pureFunction(r)
+		stmts = append(stmts, defs...)
+		// the call at several depths, with writes of locals in between
+		stmts = append(stmts,
+			ast.Assign{Name: "zat", Value: ast.FuncLit{Params: []string{"d"}, Body: ast.If{Cond: ast.Binary{Op: "<=", L: nm("d"), R: il(0)}, Then: call, Else: ast.Block{Stmts: []ast.Node{
+				ast.Assign{Name: "keep", Value: ast.Binary{Op: "*", L: nm("d"), R: il(3)}},
+				ast.Assign{Name: "got", Value: icall("zat", ast.Binary{Op: "-", L: nm("d"), R: il(1)})},
+				ast.ArrayLit{Elems: []ast.Node{nm("keep"), nm("d"), nm("got")}}}}}}})
+		for _, d := range []int64{0, 1, 40, 43, 130, int64(r.Range(2, 300))} {
+			stmts = append(stmts, ast.Index{X: icall("zat", il(d)), I: il(0)}, ast.Unary{Op: "#", X: toa(icall("zat", il(d)))})
+		}
+	} else {
+		stmts = gen.ScopeProgram(r)
+	}
+	opts := diffOpts{DoOut: idx%2 == 0, Stress: stressModes[(idx/2)%len(stressModes)], Residue: true, Globals: true, Marker: "DIFF:"}
+	d := runDiff(stmts, opts)
+	res := diffCase("C18", stmts, opts, d, map[string]any{"family": "lang/" + kind})
+	res.Tag("lang:" + kind)
+	res.Add("language_level_statements", d.Executed)
+	return res
+}
+
 func init() {
 	register(&core.Property{
-		ID: "C18",
-		Rule: "VM-legal operation histories (20..400 ops) on the real memory.Type: push/pop, call = PushFrame+PushClosure+Push(ip) with 0..3 arguments and frame widths 0..600 concentrated on 120..132 and 250..260, return = IP+PopFrame+PopClosure+Push, Set/LookUpLocal, Top() aliases kept while their frame lives, globals, Clone(nil | finished clone in any state) with interleaved work on up to 9 memories, finishing clones, ResetSP, Reset. After every op every observer of every live memory and every live alias is compared with a model in which each activation is an independent record; every written value is unique. Run in plain mode and in tight mode (every growth moves the array). non-trivial = at least 2 calls and a local write; distinct by op list.",
+		ID:          "C18",
+		Rule:        "VM-legal operation histories (20..400 ops) on the real memory.Type: push/pop, call = PushFrame+PushClosure+Push(ip) with 0..3 arguments and frame widths 0..600 concentrated on 120..132 and 250..260, return = IP+PopFrame+PopClosure+Push, Set/LookUpLocal, Top() aliases kept while their frame lives, globals, Clone(nil | finished clone in any state) with interleaved work on up to 9 memories, finishing clones, ResetSP, Reset. After every op every observer of every live memory and every live alias is compared with a model in which each activation is an independent record; every written value is unique. Run in plain mode and in tight mode (every growth moves the array). non-trivial = at least 2 calls and a local write; distinct by op list. Language level: name-pressure sessions (as in C04, incl. zipped loops whose variables mix existing and new locals) and wide-frame/closure functions called at recursion depths 0..300 with locals written around the call, against the reference under plain/tight/pregrown allocation.",
 		Assumptions: []string{"the op generator is restricted to sequences the VM can produce (DESIGN.md 6/C18); reads through aliases of returned frames are not generated", "tight mode only changes how much a growth adds, which append may do at any time"},
 		Families: []core.Family{
 			{Name: "plain", Count: countFn(12000, 1200000), Run: func(c *core.Ctx, i int) core.Result { return c18History(c, i, false) }},
 			{Name: "tight", Count: countFn(12000, 1200000), Run: func(c *core.Ctx, i int) core.Result { return c18History(c, i, true) }},
+			{Name: "lang", Count: countFn(2400, 240000), Run: c18Lang},
 		},
-		Floors: []core.Floor{{Key: "history_ops", Quick: 2000000, Thor: 200000000}, {Key: "grow_events", Quick: 20000, Thor: 2000000}, {Key: "op_clone_reuse", Quick: 5000, Thor: 500000}, {Key: "op_alias", Quick: 50000, Thor: 5000000}, {Key: "nontrivial", Quick: 15000, Thor: 1500000}},
+		Floors: []core.Floor{{Key: "history_ops", Quick: 2000000, Thor: 200000000}, {Key: "grow_events", Quick: 20000, Thor: 2000000}, {Key: "op_clone_reuse", Quick: 5000, Thor: 500000}, {Key: "op_alias", Quick: 50000, Thor: 5000000}, {Key: "language_level_statements", Quick: 10000, Thor: 1000000}, {Key: "tag:lang:", Quick: 2, Thor: 2}, {Key: "nontrivial", Quick: 15000, Thor: 1500000}},
 	})
 }
